@@ -138,5 +138,6 @@ let () =
     | "S" :: _ -> print_endline "S same"
     | "P" :: _ -> print_endline "P same"
     | "X" :: _ -> print_endline "X ok"
+    | "C" :: _ -> print_endline "C ok"
     | [] -> ()
     | _ -> print_endline "?")
